@@ -4,6 +4,7 @@ import (
 	"go/token"
 	"go/types"
 	"sort"
+	"strconv"
 	"strings"
 
 	"golang.org/x/tools/go/ssa"
@@ -238,7 +239,7 @@ func (c *Ctx) c18Attr() {
 		}
 		for _, ref := range *v.Referrers() {
 			switch x := ref.(type) {
-			case *ssa.Convert, *ssa.ChangeType, *ssa.Phi, *ssa.Slice:
+			case *ssa.Convert, *ssa.ChangeType, *ssa.Phi, *ssa.Slice, *ssa.Extract:
 				nv := ref.(ssa.Value)
 				if !tainted[nv] {
 					tainted[nv] = true
@@ -288,50 +289,112 @@ func (c *Ctx) c18Attr() {
 	if len(escapes) == 0 {
 		probs = append(probs, "attribute values are never escaped")
 	}
-	// style: the escaped value is φ(raw, cssFilter(raw)) with the filter edge under lower(key)=="style"
-	styleOK := false
-	for _, esc := range escapes {
-		ph, ok := esc.Call.Args[0].(*ssa.Phi)
-		if !ok {
-			continue
+	// style: the escaped value is one of (raw, cssFilter(raw)), the filter's result being
+	// selected under lower(key)=="style" and the raw value only on the other side. The
+	// selection is a phi, or the returns of a package helper (filterAttrValue(key, val)).
+	type alt struct {
+		v  ssa.Value
+		at *ssa.BasicBlock
+	}
+	var alternatives func(v ssa.Value, depth int) []alt
+	alternatives = func(v ssa.Value, depth int) []alt {
+		if depth > 3 {
+			return []alt{{v, nil}}
 		}
-		for i, e := range ph.Edges {
-			fc, ok := e.(*ssa.Call)
-			if !ok || eng.StaticCallee(fc.Common()) != cssFilter {
-				continue
-			}
-			pred := ph.Block().Preds[i]
-			for _, b := range esc.Parent().Blocks {
-				for k := 0; k < len(b.Succs) && len(b.Succs) == 2; k++ {
-					rel, ok := eng.EdgeRel(b, k)
-					if !ok || rel.Op != token.EQL {
-						continue
+		switch x := v.(type) {
+		case *ssa.Phi:
+			var out []alt
+			for i, e := range x.Edges {
+				sub := alternatives(e, depth+1)
+				for _, a := range sub {
+					if a.at == nil {
+						a.at = x.Block().Preds[i]
 					}
-					s, isC := eng.ConstString(rel.Y)
-					lc, isCall := rel.X.(*ssa.Call)
-					if !isC || s != "style" || !isCall || eng.CalleeName(lc.Common()) != "strings.ToLower" {
-						continue
-					}
-					if cv, ok := lc.Call.Args[0].(*ssa.Convert); !ok || (cv.X != key && p.Actual(cv.X) != key) {
-						continue
-					}
-					if eng.EdgeDominates(b, k, pred) || b.Succs[k] == pred {
-						// and the raw edge must come from the other side
-						styleOK = true
-						for j, e2 := range ph.Edges {
-							if j == i {
-								continue
-							}
-							if _, isCall := e2.(*ssa.Call); !isCall {
-								rp := ph.Block().Preds[j]
-								if eng.EdgeDominates(b, k, rp) {
-									styleOK = false
-								}
-							}
-						}
-					}
+					out = append(out, a)
 				}
 			}
+			return out
+		case *ssa.Extract:
+			call, ok := x.Tuple.(*ssa.Call)
+			if !ok {
+				break
+			}
+			g := eng.StaticCallee(call.Common())
+			if g == nil || eng.FuncPkgPath(g) != eng.Mod+"/"+sanRel || len(g.Blocks) == 0 || g == cssFilter {
+				break
+			}
+			var out []alt
+			eng.EachInstr(g, func(in ssa.Instruction) {
+				ret, ok := in.(*ssa.Return)
+				if !ok {
+					return
+				}
+				res := eng.ReturnResults(ret)
+				if x.Index >= len(res) {
+					return
+				}
+				for _, a := range alternatives(res[x.Index], depth+1) {
+					if a.at == nil {
+						a.at = ret.Block()
+					}
+					out = append(out, a)
+				}
+			})
+			if len(out) > 0 {
+				return out
+			}
+		}
+		return []alt{{v, nil}}
+	}
+	underStyle := func(at *ssa.BasicBlock) bool {
+		if at == nil {
+			return false
+		}
+		for _, b := range at.Parent().Blocks {
+			for k := 0; k < len(b.Succs) && len(b.Succs) == 2; k++ {
+				rel, ok := eng.EdgeRel(b, k)
+				if !ok || rel.Op != token.EQL {
+					continue
+				}
+				s, isC := eng.ConstString(rel.Y)
+				lc, isCall := rel.X.(*ssa.Call)
+				if !isC || s != "style" || !isCall || eng.CalleeName(lc.Common()) != "strings.ToLower" {
+					continue
+				}
+				if cv, ok := lc.Call.Args[0].(*ssa.Convert); !ok || (cv.X != key && p.Actual(cv.X) != key) {
+					continue
+				}
+				if eng.EdgeDominates(b, k, at) || b.Succs[k] == at {
+					return true
+				}
+			}
+		}
+		return false
+	}
+	styleOK := false
+	for _, esc := range escapes {
+		alts := alternatives(esc.Call.Args[0], 0)
+		if len(alts) < 2 {
+			continue
+		}
+		filtered, rawUnder := false, false
+		for _, a := range alts {
+			fc, isCall := a.v.(*ssa.Call)
+			if isCall && eng.StaticCallee(fc.Common()) == cssFilter {
+				if underStyle(a.at) {
+					filtered = true
+				}
+				continue
+			}
+			if c, isC := a.v.(*ssa.Const); isC && c.Value != nil {
+				continue
+			}
+			if underStyle(a.at) {
+				rawUnder = true
+			}
+		}
+		if filtered && !rawUnder {
+			styleOK = true
 		}
 	}
 	if !styleOK {
@@ -356,21 +419,100 @@ func (c *Ctx) c18CSS() {
 	if sp := p.SSA.Package(p.Pkg(sanRel)); sp != nil {
 		allowedG, _ = sp.Members["allowedProperties"].(*ssa.Global)
 	}
-	// state functions: module functions in the package whose signature equals stateHandler's
-	sh := p.Named(sanRel, "stateHandler")
-	if sh == nil || allowedG == nil {
+	if allowedG == nil {
 		return
 	}
+	isScannerToken := func(t types.Type) bool {
+		if pt, ok := t.(*types.Pointer); ok {
+			t = pt.Elem()
+		}
+		n, ok := t.(*types.Named)
+		return ok && n.Obj().Name() == "Token" && n.Obj().Pkg() != nil && strings.HasSuffix(n.Obj().Pkg().Path(), "css/scanner")
+	}
+	// token handlers: the package functions that receive a scanner token (the states of the
+	// filter, however they are represented), plus the filter itself
 	var states []*ssa.Function
 	for _, fn := range pkgFuncs(p, sanRel) {
-		if fn.Parent() == nil && types.Identical(fn.Signature, sh.Underlying()) {
-			states = append(states, fn)
+		if fn.Parent() != nil {
+			continue
+		}
+		for _, prm := range fn.Params {
+			if isScannerToken(prm.Type()) {
+				states = append(states, fn)
+				break
+			}
 		}
 	}
 	r.Floor("C18/CSS", "state handler functions", len(states), 1)
+	writers := append([]*ssa.Function{cssFilter}, states...)
 	isTokenValue := func(v ssa.Value) bool {
 		f := eng.LoadedField(v)
 		return f != nil && f.Name() == "Value" && f.Pkg() != nil && strings.HasSuffix(f.Pkg().Path(), "css/scanner")
+	}
+	// token text: anything that carries characters of the token — its Value, the result of a
+	// method on the token itself (Token.String() includes the value), and strings built from
+	// those. The token's Type and Type.String() are a closed set of names.
+	var isTokenText func(v ssa.Value, depth int) bool
+	isTokenText = func(v ssa.Value, depth int) bool {
+		if depth > 6 {
+			return true
+		}
+		if isTokenValue(v) {
+			return true
+		}
+		switch x := v.(type) {
+		case *ssa.Const:
+			return false
+		case *ssa.BinOp:
+			return x.Op == token.ADD && (isTokenText(x.X, depth+1) || isTokenText(x.Y, depth+1))
+		case *ssa.Convert:
+			return isTokenText(x.X, depth+1)
+		case *ssa.ChangeType:
+			return isTokenText(x.X, depth+1)
+		case *ssa.MakeInterface:
+			return isTokenText(x.X, depth+1)
+		case *ssa.Phi:
+			for _, e := range x.Edges {
+				if isTokenText(e, depth+1) {
+					return true
+				}
+			}
+			return false
+		case *ssa.Call:
+			if !x.Call.IsInvoke() {
+				for i, a := range x.Call.Args {
+					if i == 0 && isScannerToken(a.Type()) {
+						return true // a method of the token
+					}
+				}
+			}
+			switch eng.CalleeName(x.Common()) {
+			case "fmt.Sprintf", "fmt.Sprint":
+				for _, a := range sprintfArgs(x) {
+					if isTokenText(a, depth+1) {
+						return true
+					}
+				}
+				return false
+			case "strings.ToLower", "strings.ToUpper", "strings.TrimSpace":
+				return isTokenText(x.Call.Args[0], depth+1)
+			}
+			if strings.HasSuffix(eng.CalleeName(x.Common()), "css/scanner.tokenType).String") || strings.HasSuffix(eng.CalleeName(x.Common()), "css/scanner.TokenType).String") {
+				return false
+			}
+			for _, a := range x.Call.Args {
+				if isTokenText(a, depth+1) {
+					return true
+				}
+			}
+			return false
+		case *ssa.Parameter:
+			if w := p.Actual(x); w != v {
+				return isTokenText(w, depth+1)
+			}
+			return isString(x.Type())
+		}
+		return false
 	}
 	// ok edge of the allow-list lookup in fn
 	okEdge := func(fn *ssa.Function, at *ssa.BasicBlock) bool {
@@ -405,8 +547,42 @@ func (c *Ctx) c18CSS() {
 		}
 		return false
 	}
+	// the "copying" state of an unguarded token write: the function itself when states are
+	// function values, or the constant K of a package-declared integer type when the write is
+	// dominated by a `state == K` edge
+	type enumState struct {
+		t types.Type
+		k int64
+	}
+	stateGuard := func(fn *ssa.Function, at *ssa.BasicBlock) (enumState, bool) {
+		for _, b := range fn.Blocks {
+			for k := 0; k < len(b.Succs) && len(b.Succs) == 2; k++ {
+				rel, ok := eng.EdgeRel(b, k)
+				if !ok || rel.Op != token.EQL || !eng.EdgeDominates(b, k, at) {
+					continue
+				}
+				x, y := rel.X, rel.Y
+				if _, isC := x.(*ssa.Const); isC {
+					x, y = y, x
+				}
+				kv, isC := eng.ConstInt(y)
+				n, isN := x.Type().(*types.Named)
+				if !isC || !isN || n.Obj().Pkg() == nil || n.Obj().Pkg().Path() != eng.Mod+"/"+sanRel {
+					continue
+				}
+				if b, ok := n.Underlying().(*types.Basic); !ok || b.Info()&types.IsInteger == 0 {
+					continue
+				}
+				return enumState{n, kv}, true
+			}
+		}
+		return enumState{}, false
+	}
 	unguarded := map[*ssa.Function]bool{}
-	for _, fn := range states {
+	enumStates := map[enumState]string{}
+	var probs []string
+	nWrites := 0
+	for _, fn := range writers {
 		fn := fn
 		eng.EachInstr(fn, func(in ssa.Instruction) {
 			call, ok := in.(*ssa.Call)
@@ -414,20 +590,27 @@ func (c *Ctx) c18CSS() {
 				return
 			}
 			name := eng.CalleeName(call.Common())
-			if !strings.HasPrefix(name, "(*bytes.Buffer).Write") {
+			if !strings.HasPrefix(name, "(*bytes.Buffer).Write") || len(call.Call.Args) < 2 {
 				return
 			}
-			if !isTokenValue(call.Call.Args[1]) {
+			nWrites++
+			if !isTokenText(call.Call.Args[1], 0) {
 				return
 			}
-			if !okEdge(fn, call.Block()) {
-				unguarded[fn] = true
+			if okEdge(fn, call.Block()) && isTokenValue(call.Call.Args[1]) {
+				return
 			}
+			if es, ok := stateGuard(fn, call.Block()); ok {
+				enumStates[es] = p.InstrPos(call)
+				return
+			}
+			unguarded[fn] = true
 		})
 	}
+	r.Floor("C18/CSS", "writes to the filter's output buffer", nWrites, 1)
 	// an unguarded writer state may only be entered from an ok edge or from itself
-	var probs []string
 	for fn := range unguarded {
+		referenced := false
 		for _, g := range pkgFuncs(p, sanRel) {
 			g := g
 			eng.EachInstr(g, func(in ssa.Instruction) {
@@ -440,9 +623,10 @@ func (c *Ctx) c18CSS() {
 				if !refs {
 					return
 				}
+				referenced = true
 				if _, isCall := in.(*ssa.Call); isCall {
 					if cc := in.(*ssa.Call); eng.StaticCallee(cc.Common()) == fn {
-						probs = append(probs, shortFn(fn)+" is called directly at "+p.InstrPos(in))
+						probs = append(probs, shortFn(fn)+" writes token text that did not pass the allow-list and is called directly at "+p.InstrPos(in))
 						return
 					}
 				}
@@ -464,13 +648,48 @@ func (c *Ctx) c18CSS() {
 				}
 			})
 		}
+		if !referenced {
+			probs = append(probs, shortFn(fn)+" writes token text to the output without the allow-list lookup and outside any state")
+		}
+	}
+	// enum-coded copying states: the constant is produced only under the allow-list edge or
+	// under the `state == K` edge itself
+	for es, where := range enumStates {
+		for _, g := range pkgFuncs(p, sanRel) {
+			g := g
+			eng.EachInstr(g, func(in ssa.Instruction) {
+				if bo, isB := in.(*ssa.BinOp); isB && (bo.Op == token.EQL || bo.Op == token.NEQ) {
+					return
+				}
+				for i, op := range in.Operands(nil) {
+					cst, ok := (*op).(*ssa.Const)
+					if !ok || !types.Identical(cst.Type(), es.t) {
+						continue
+					}
+					if kv, isC := eng.ConstInt(cst); !isC || kv != es.k {
+						continue
+					}
+					at := in.Block()
+					if ph, isPhi := in.(*ssa.Phi); isPhi && i < len(ph.Block().Preds) {
+						at = ph.Block().Preds[i]
+					}
+					if okEdge(g, at) {
+						continue
+					}
+					if gs, ok := stateGuard(g, at); ok && gs == es {
+						continue
+					}
+					probs = append(probs, "the token-copying state (value "+strconv.FormatInt(es.k, 10)+", copying at "+where+") is selected at "+p.InstrPos(in)+" ("+shortFn(g)+") without the property having passed the allow-list")
+				}
+			})
+		}
 	}
 	// at least one guarded identifier writer must exist
 	guardedWriter := false
-	for _, fn := range states {
+	for _, fn := range writers {
 		fn := fn
 		eng.EachInstr(fn, func(in ssa.Instruction) {
-			if call, ok := in.(*ssa.Call); ok && strings.HasPrefix(eng.CalleeName(call.Common()), "(*bytes.Buffer).Write") && isTokenValue(call.Call.Args[1]) && okEdge(fn, call.Block()) {
+			if call, ok := in.(*ssa.Call); ok && strings.HasPrefix(eng.CalleeName(call.Common()), "(*bytes.Buffer).Write") && len(call.Call.Args) >= 2 && isTokenValue(call.Call.Args[1]) && okEdge(fn, call.Block()) {
 				guardedWriter = true
 			}
 		})
@@ -493,11 +712,22 @@ func (c *Ctx) c18CSS() {
 		probs = append(probs, "the CSS filter has no path returning \"\" (scanner error must drop the whole style)")
 	}
 	sort.Strings(probs)
+	probs = dedupStrings(probs)
 	if len(probs) > 0 {
 		r.Bad("C18/CSS", "css-state-machine", p.Pos(cssFilter.Pos()), "%s", strings.Join(probs, "; "))
 	} else {
-		r.Ok("C18/CSS", "css-state-machine", p.Pos(cssFilter.Pos()), "identifiers are written only under allowedProperties[lower(name)] ok; %d value-copying state(s) entered only from that edge; error → \"\"", len(unguarded))
+		r.Ok("C18/CSS", "css-state-machine", p.Pos(cssFilter.Pos()), "token text is written only under allowedProperties[lower(name)] ok or in a copying state (%d function-valued, %d enum-coded) that is entered only from that edge; other output is constant text and token type names; error → \"\"", len(unguarded), len(enumStates))
 	}
+}
+
+func dedupStrings(in []string) []string {
+	var out []string
+	for i, s := range in {
+		if i == 0 || s != in[i-1] {
+			out = append(out, s)
+		}
+	}
+	return out
 }
 
 func (c *Ctx) c18Text() {
@@ -653,22 +883,22 @@ func (c *Ctx) c18Text() {
 	// WrapURL: constant format, arguments derived from its (already escaped) parameter
 	okWrap := true
 	nWrapRet := 0
-	var builtFromConsts func(v ssa.Value, depth int) bool
-	builtFromConsts = func(v ssa.Value, depth int) bool {
+	var builtFrom func(v ssa.Value, leaves map[ssa.Value]bool, depth int) bool
+	builtFrom = func(v ssa.Value, leaves map[ssa.Value]bool, depth int) bool {
 		if depth > 8 {
 			return false
 		}
 		if _, isC := eng.ConstString(v); isC {
 			return true
 		}
-		if v == ssa.Value(wrap.Params[0]) {
+		if leaves[v] {
 			return true
 		}
 		switch x := v.(type) {
 		case *ssa.BinOp:
-			return x.Op == token.ADD && builtFromConsts(x.X, depth+1) && builtFromConsts(x.Y, depth+1)
+			return x.Op == token.ADD && builtFrom(x.X, leaves, depth+1) && builtFrom(x.Y, leaves, depth+1)
 		case *ssa.MakeInterface:
-			return builtFromConsts(x.X, depth+1)
+			return builtFrom(x.X, leaves, depth+1)
 		case *ssa.Call:
 			switch eng.CalleeName(x.Common()) {
 			case "fmt.Sprintf":
@@ -676,16 +906,41 @@ func (c *Ctx) c18Text() {
 					return false
 				}
 				for _, a := range sprintfArgs(x) {
-					if !builtFromConsts(a, depth+1) {
+					if !builtFrom(a, leaves, depth+1) {
 						return false
 					}
 				}
 				return true
 			case "strings.ReplaceAll", "strings.Replace":
-				return builtFromConsts(x.Call.Args[0], depth+1)
+				return builtFrom(x.Call.Args[0], leaves, depth+1)
 			}
+			// a helper of the package that renders its string parameters into constant markup
+			// (anchor(href, label))
+			g := eng.StaticCallee(x.Common())
+			if g == nil || eng.FuncPkgPath(g) != eng.FuncPkgPath(wrap) || len(g.Blocks) == 0 || g.Parent() != nil {
+				return false
+			}
+			for _, a := range x.Call.Args {
+				if !builtFrom(a, leaves, depth+1) {
+					return false
+				}
+			}
+			inner := map[ssa.Value]bool{}
+			for _, prm := range g.Params {
+				inner[prm] = true
+			}
+			rets := successReturns(g)
+			for _, ret := range rets {
+				if len(ret.Results) != 1 || !builtFrom(ret.Results[0], inner, depth+1) {
+					return false
+				}
+			}
+			return len(rets) > 0
 		}
 		return false
+	}
+	builtFromConsts := func(v ssa.Value, depth int) bool {
+		return builtFrom(v, map[ssa.Value]bool{wrap.Params[0]: true}, depth)
 	}
 	for _, ret := range successReturns(wrap) {
 		nWrapRet++
